@@ -641,4 +641,104 @@ Section RefProof.
       + intros m Hm. apply filter_In in Hm. tauto.
       + intros x m fs Hx Ex Hmem. apply filter_In. split; auto. eapply Mcov; eauto.
   Qed.
+
+  (** ** resolveBatch *)
+  Lemma R_step : forall frt, (forall fr, frt = Datatypes.S fr -> U fr) -> R frt.
+  Proof.
+    intros frt HU mf t. induction t as [n|n|n|t' IH|t' IH|n]; intros sub items Hmf Hfu Hprem.
+    all: destruct items as [|it0 rest];
+      [exists xempty, []; split; [reflexivity|split; [apply xtotal_empty|constructor]]|].
+    all: set (items := it0 :: rest) in *.
+    - (* scalar *)
+      eexists. eexists. split; [reflexivity|]. split; [apply xtotal_heap|].
+      rewrite <- flat_map_singleton. apply flat_map_perm_ext. intros it _. unfold type_ref. cbn [eval_type fst].
+      destruct (fst it); try apply Permutation_refl. rewrite ent_leaf. apply Permutation_refl.
+    - (* enum *)
+      eexists. eexists. split; [reflexivity|]. split; [apply xtotal_heap|].
+      rewrite <- flat_map_singleton. apply flat_map_perm_ext. intros it _. unfold type_ref. cbn [eval_type fst].
+      destruct (fst it); try apply Permutation_refl. rewrite ent_leaf. apply Permutation_refl.
+    - (* object *)
+      destruct sub as [s|].
+      2:{ exfalso. pose proof (Hprem it0 (or_introl eq_refl)) as Hp. unfold type_ref in Hp. cbn [eval_type] in Hp. discriminate. }
+      destruct frt as [|fr].
+      { exfalso. pose proof (Hprem it0 (or_introl eq_refl)) as Hp. unfold type_ref in Hp. cbn [eval_type eval_obj] in Hp. discriminate. }
+      destruct (resolve_object_ok fr mf n s items (HU fr eq_refl) Hmf Hfu) as [x [H [E [X Pm]]]].
+      + discriminate.
+      + exact Hprem.
+      + exists x, H. split; [exact E|]. split; auto.
+    - (* list *)
+      destruct (flatten_lists_spec (eval_obj S frt) t' sub items Hprem) as [Hp' Hperm].
+      destruct (IH sub (snd (flatten_lists items)) Hmf Hfu Hp') as [x [H [E [X Pm]]]].
+      change (resolve fixed S (ex mf) (TList t') sub items)
+        with (match resolve fixed S (ex mf) t' sub (snd (flatten_lists items)) with
+              | inr e => inr e
+              | inl x0 => inl (xapp (mk_xres (fst (flatten_lists items)) [] []) x0)
+              end).
+      rewrite E. eexists. exists (fst (flatten_lists items) ++ H). split; [reflexivity|]. split.
+      + apply xtotal_app; [apply xtotal_heap|exact X].
+      + eapply perm_trans; [apply Permutation_app_head; exact Pm|]. exact Hperm.
+    - (* non-null *)
+      destruct (IH sub items Hmf Hfu Hprem) as [x [H [E [X Pm]]]].
+      exists x, H. split; [exact E|]. split; auto.
+    - (* union *)
+      destruct sub as [s|].
+      2:{ exfalso. pose proof (Hprem it0 (or_introl eq_refl)) as Hp. unfold type_ref in Hp. cbn [eval_type] in Hp.
+          destruct (fst it0); discriminate. }
+      destruct (resolve_union_ok frt mf n s items HU Hmf Hfu Hprem) as [x [H [E [X Pm]]]].
+      exists x, H. split; [exact E|]. split; auto.
+  Qed.
+
+  (** ** executeWorkUnit *)
+  Lemma U_of_R : forall fr, R fr -> U fr.
+  Proof.
+    intros fr HR mf u Hmf Hfu Hprem.
+    destruct mf as [|mf']; [inversion Hmf|].
+    assert (Hmf' : fr <= mf') by (apply le_S_n; exact Hmf).
+    assert (Hfu' : fr <= fuel) by lia.
+    (* every source has a successful resolver result *)
+    assert (Hok : forall it, In it (u_items u) ->
+              exists v, outcome_of u (fst it) = OOk v /\
+                        unit_ref fr u it = type_ref fr (f_type (u_field u)) (u_sub u) (v, snd it)).
+    { intros it Hit. pose proof (Hprem it Hit) as Hp. unfold unit_ref, field_ref, outcome_of in *.
+      destruct (fst it) as [| |?|tn fs]; try discriminate.
+      destruct (lookup (s_key (u_sel u)) fs) as [[v|e]|]; try discriminate.
+      exists v. split; reflexivity. }
+    set (outs := map (fun it : value * path => (outcome_of u (fst it), snd it)) (u_items u)).
+    assert (Hff : first_failure outs = None).
+    { unfold outs. clear -Hok. induction (u_items u) as [|it t IH]; simpl; auto.
+      destruct (Hok it (or_introl eq_refl)) as [v [E _]]. rewrite E. apply IH. intros it' Hit'. apply Hok. now right. }
+    set (res := map (fun o : outcome value * path => (ok_value (fst o), snd o)) outs).
+    assert (Hres : forall it, In it res -> snd (type_ref fr (f_type (u_field u)) (u_sub u) it) = []).
+    { intros it Hit. unfold res, outs in Hit. rewrite map_map in Hit. apply in_map_iff in Hit as [it0 [<- Hit0]].
+      cbn [fst snd]. destruct (Hok it0 Hit0) as [v [E Eu]]. rewrite E. cbn [ok_value].
+      rewrite <- Eu. apply Hprem. exact Hit0. }
+    assert (Htarget : Permutation
+              (flat_map (fun it => ent (snd it) (fst (type_ref fr (f_type (u_field u)) (u_sub u) it))) res)
+              (flat_map (fun it => ent (snd it) (fst (unit_ref fr u it))) (u_items u))).
+    { unfold res, outs. rewrite map_map. rewrite flat_map_map. apply flat_map_perm_ext. intros it Hit. cbn [fst snd].
+      destruct (Hok it Hit) as [v [E Eu]]. rewrite E. cbn [ok_value]. rewrite Eu. apply Permutation_refl. }
+    cbn [exec_unit]. fold outs. rewrite Hff.
+    destruct (f_batch (u_field u) && u_batch u); [|destruct (negb (f_expensive (u_field u)))].
+    1,2: (fold res;
+          destruct (HR mf' (f_type (u_field u)) (u_sub u) res Hmf' Hfu' Hres) as [x [H [E [X Pm]]]];
+          rewrite E; exists H; split; [exact X|]; eapply perm_trans; [exact Pm|exact Htarget]).
+    (* expensive: one source at a time *)
+    eexists. split.
+    - apply (xtotal_concat _ (fun o : outcome value * path =>
+                                ent (snd o) (fst (type_ref fr (f_type (u_field u)) (u_sub u) (ok_value (fst o), snd o))))).
+      intros o Ho. unfold outs in Ho. apply in_map_iff in Ho as [it [<- Hit]]. cbn [fst snd].
+      destruct (Hok it Hit) as [v [E Eu]]. rewrite E. cbn [ok_value].
+      destruct (HR mf' (f_type (u_field u)) (u_sub u) [(v, snd it)] Hmf' Hfu') as [x [H [Ex [X Pm]]]].
+      + intros it' [<-|[]]. rewrite <- Eu. apply Hprem. exact Hit.
+      + rewrite Ex. eapply xtotal_perm; [exact X|]. simpl in Pm. rewrite app_nil_r in Pm. apply Permutation_sym. exact Pm.
+    - unfold res in Htarget. rewrite flat_map_map in Htarget. exact Htarget.
+  Qed.
+
+  Theorem units_compute_reference : forall fr, R fr /\ U fr.
+  Proof.
+    induction fr as [|fr [_ IHU]].
+    - assert (HR : R 0) by (apply R_step; intros fr E; discriminate). split; [exact HR|now apply U_of_R].
+    - assert (HR : R (Datatypes.S fr)) by (apply R_step; intros fr' E; inversion E; subst; exact IHU).
+      split; [exact HR|now apply U_of_R].
+  Qed.
 End RefProof.
